@@ -872,7 +872,11 @@ class SyncObj(object):
             callback = self.__conf.onCodeVersionChanged
             self.__onSetCodeVersion(ver)
             if callback is not None:
-                callback(oldVer, ver)
+                # The switch has been made: a failing hook must not make the entry run again.
+                try:
+                    callback(oldVer, ver)
+                except Exception:
+                    logger.exception('failed to execute onCodeVersionChanged')
             return
 
         # Cluster changes were made when the entry was appended (after a restart: when the
@@ -1236,9 +1240,13 @@ class SyncObj(object):
             callback(oldState, newState)
 
     def __onLeaderChanged(self):
-        for id in sorted(self.__commandsWaitingReply):
-            self.__commandsWaitingReply[id](None, FAIL_REASON.LEADER_CHANGED)
-        self.__commandsWaitingReply = {}
+        waiting, self.__commandsWaitingReply = self.__commandsWaitingReply, {}
+        for id in sorted(waiting):
+            # every waiting caller is answered once, whatever the callback of another one does
+            try:
+                waiting[id](None, FAIL_REASON.LEADER_CHANGED)
+            except Exception:
+                logger.exception('failed to execute callback')
 
     def __sendAppendEntries(self):
         self.__newAppendEntriesTime = monotonicTime() + self.__conf.appendEntriesPeriod
